@@ -144,7 +144,7 @@ class Check:
             cfg = self.tier_val(mc, "cfg")
             workers = self.tier_val(mc, "workers", 6)
             timeout = self.tier_val(mc, "timeout", 900)
-            extra = ["-coverage", "1"] + list(self.tier_val(mc, "args", []))
+            extra = ["-coverage", "600"] + list(self.tier_val(mc, "args", []))   # interval long enough that only the final report is printed
             t0 = time.time()
             res = run_tlc(mc["module"], cfg, os.path.join(self.work, "md_" + mc["module"]), workers=workers,
                           timeout=timeout, extra_args=extra, xmx=mc.get("xmx", "8g"),
